@@ -877,16 +877,15 @@ def from_dict(
 
             # All the arguments that the dataclass should be able to accept in
             # its 'init'.
-            req_init_field_names = set(chain(extra_args, init_args))
+            req_init_field_names = set(chain(extra_args, init_args, non_init_args))
 
             # Sort the derived classes by their number of init fields, so that
             # we choose the first one with all the required fields.
-            derived_classes.sort(key=lambda dc: len(get_init_fields(dc)))
+            derived_classes.sort(key=lambda dc: len(fields(dc)))
 
             for child_class in derived_classes:
                 logger.debug(f"child class: {child_class.__name__}, mro: {child_class.mro()}")
-                child_init_fields: dict[str, Field] = get_init_fields(child_class)
-                child_init_field_names = set(child_init_fields.keys())
+                child_init_field_names = {f.name for f in fields(child_class)}
 
                 if child_init_field_names >= req_init_field_names:
                     # `child_class` is the first class with all required fields.
